@@ -343,9 +343,12 @@ def aux_entries(msg, snap):
 # message normalisation (re-save equality)
 
 
-def normalise(msg):
+def normalise(msg, aux_content=False):
     """Canonical nested structure of an IR message with unordered repeated
-    fields sorted."""
+    fields sorted. aux_content: AuxData tables of fully known type are compared
+    by decoded, canonicalised value (set / mapping order, duplicates) instead
+    of by their bytes."""
+    import json as _json
 
     def blk(b):
         which = b.WhichOneof("value")
@@ -372,8 +375,20 @@ def normalise(msg):
         which = s.WhichOneof("optional_payload")
         return (s.uuid, s.name, s.at_end, which, getattr(s, which) if which else None)
 
+    def aux_val(v):
+        if aux_content:
+            try:
+                t = R.parse_type(v.type_name)
+                if not R.has_unknown(t):
+                    cv, used = R.decode(v.data, t)
+                    if used == len(v.data):
+                        return _json.dumps(R.canon(cv, t), sort_keys=True)
+            except Exception:  # noqa
+                pass
+        return v.data
+
     def aux(mp):
-        return sorted((k, v.type_name, v.data) for k, v in mp.items())
+        return sorted((k, v.type_name, aux_val(v)) for k, v in mp.items())
 
     def mod(m):
         return (
@@ -689,13 +704,17 @@ def post_load_checks(w, op, I_label, labels, snap, path):
     out = capture(lambda: I.save_protobuf_file(buf))
     if out.kind != "ok":
         w.violate(("C01", "C17"), "load:resave_fails", "saving the loaded IR raised %s: %s" % (type(out.exc).__name__, out.exc))
-    a = normalise(parse_file(w, w.disk.files[path]))
-    b = normalise(parse_file(w, buf.getvalue()))
+    ma, mb = parse_file(w, w.disk.files[path]), parse_file(w, buf.getvalue())
+    a, b = normalise(ma, aux_content=True), normalise(mb, aux_content=True)
     if snap["writer"] != "gtirb":
         # a foreign writer's vertex list / element order / non-canonical AuxData need not be reproduced
         w.counters["probe:peer_loads_checked"] += 1
     elif a != b:
         w.violate(("C01",), "c01:resave_differs", _first_diff(a, b))
+    elif normalise(ma) != normalise(mb):
+        # same content, other bytes for a table nobody read: C01 is satisfied ("same content"),
+        # C14 is not ("written back byte for byte")
+        w.violate(("C14",), "c14:resave_rewrites_untouched", _first_diff(normalise(ma), normalise(mb)))
     w.counters["probe:loads_checked"] += 1
 
 
